@@ -45,6 +45,11 @@ pub fn fmt_refnum(n: RefNum) -> String {
 
 /// Compare a DOM value with the reference node. `input` is the text the reference spans index.
 pub fn cmp_value(v: &Value, r: &R, input: &[u8], mode: NumMode, path: &mut String) -> Result<(), String> {
+    // the boolean predicates hold for exactly the two boolean values
+    let (want_t, want_f) = (matches!(r.k, K::Bool(true)), matches!(r.k, K::Bool(false)));
+    if v.is_true() != want_t || v.is_false() != want_f || v.is_boolean() != (want_t || want_f) {
+        return Err(format!("{}: is_true {} / is_false {} / is_boolean {} for a node that is {}", path, v.is_true(), v.is_false(), v.is_boolean(), r.type_name()));
+    }
     match (&r.k, v.as_ref()) {
         (K::Null, ValueRef::Null) => {
             if mode == NumMode::Raw && v.is_number() {
